@@ -138,6 +138,33 @@ Proof.
 Qed.
 Print Assumptions shard_clear_before_install_refuted.
 
+(* what is on disk covers every write that reached the WAL, under every schedule: TSM
+   files + current WAL segment + closed segments not yet removed.  WriteSnapshot closes the
+   segment and takes the cache snapshot in ONE Engine.mu section; so a snapshot's commit
+   only removes segments whose entries are in the file it installed *)
+Theorem acked_on_disk :
+  forall (ths : list (list sact)) (sched : list nat),
+    let s := run sexec sched ths sinit in
+    forall p, In p (acked s) -> In p (concat (files s)) \/ In p (wal s) \/ In p (closedseg s).
+Proof.
+  intros ths sched s p Hp. unfold s in *. rewrite run_is_trace in *.
+  destruct (shard_trace_dinv (trace sched ths)) as [I D].
+  apply (d_logged _ D). right. apply (s_ack _ I), Hp.
+Qed.
+Print Assumptions acked_on_disk.
+
+(* cache snapshot and segment roll-over in two critical sections: an acknowledged write is
+   left in the live cache only *)
+Theorem snapshot_two_sections_refuted :
+  exists tr p, let s := run_trace (sexec_with2 false true) tr sinit in
+    In p (acked s) /\ ~ (In p (concat (files s)) \/ In p (wal s) \/ In p (closedseg s)).
+Proof.
+  exists split_snapshot_trace, 1.
+  destruct split_snapshot_loses_write as (Ha & Hf & Hw & Hc & _).
+  cbn zeta. rewrite Ha, Hf, Hw, Hc. split; [left; reflexivity|]. intros [[]|[[]|[]]].
+Qed.
+Print Assumptions snapshot_two_sections_refuted.
+
 (* (d) a published metadata value is never modified: whatever happens later, a reader
    dereferencing a pointer it loaded reads what was there when it was published; all
    observations through published pointers are consistent with the heap *)
@@ -175,6 +202,33 @@ Theorem auth_cache_interleaved_refuted :
   exists tr a u pw h via, aph (run_trace (mexec_with false) tr minit) a = AAccepted u pw h via /\ pw <> h.
 Proof. exists auth_race_trace, 2, 5, 1, 2, true. split; [exact auth_race_unpatched|discriminate]. Qed.
 Print Assumptions auth_cache_interleaved_refuted.
+
+(* (e) meta.Client.waitForIndex vs pollForUpdates, for every schedule of any number of
+   waiters and publications: no waiter sleeps on an open channel once its index has been
+   published, and such a waiter returns after its own next two steps, whatever else
+   happens or does not happen — no lost wake-up *)
+Theorem wait_for_index_no_lost_wakeup :
+  forall (ths : list (list wact)) (sched : list nat),
+    let s := run wexec sched ths winit in
+    (forall w, stuck s w = false) /\
+    (forall w idx, idx <= w_index s ->
+       (w_st s w = WLoop idx \/ exists g, w_st s w = WSleep idx g) ->
+       w_st (wexec (WCheck w) (wexec (WWake w) s)) w = WDone idx) /\
+    (forall a, w_index s <= w_index (wexec a s)).
+Proof.
+  intros ths sched s. unfold s. rewrite run_is_trace.
+  pose proof (wait_trace_inv (trace sched ths)) as I. repeat split.
+  - intros w. apply winv_not_stuck, I.
+  - intros w idx. apply published_waiter_returns, I.
+  - intros a. apply wexec_index_mono.
+Qed.
+Print Assumptions wait_for_index_no_lost_wakeup.
+
+(* index check and channel fetch in two read sections: the waiter sleeps for ever *)
+Theorem wait_for_index_two_sections_refuted :
+  exists tr w, stuck (run_trace (wexec_with false) tr winit) w = true.
+Proof. exists lost_wakeup_trace, 1. exact (proj1 two_sections_lose_wakeup). Qed.
+Print Assumptions wait_for_index_two_sections_refuted.
 
 (* ---- non-vacuity ---- *)
 (* two conflicting writers, second one pauses after validation: exactly one type survives *)
